@@ -9,6 +9,7 @@
    straddling each transition; input (local minutes), output (UTC minutes) and the table are logged and TLC requires the
    output to be an admissible conversion (EFTime), strictly increasing, total preserved.
 """
+import copy
 import random
 from datetime import datetime, timedelta
 
@@ -19,6 +20,10 @@ EPOCH = datetime(1970, 1, 1)
 AWKWARD = ["Australia/Lord_Howe", "Asia/Kathmandu", "Asia/Kolkata", "Pacific/Chatham", "Pacific/Apia",
            "Africa/Casablanca", "America/St_Johns", "Europe/Paris", "America/New_York", "America/Caracas",
            "Asia/Pyongyang", "Pacific/Kiritimati", "Europe/Dublin", "Antarctica/Troll", "UTC", "Asia/Tehran"]
+
+
+DOUBLE_ZONES = ["America/Boa_Vista", "America/Noronha", "America/Recife", "America/Argentina/Tucuman", "America/Fortaleza",
+                "America/Maceio", "America/Argentina/Catamarca", "America/Argentina/La_Rioja", "America/Argentina/Rio_Gallegos"]
 
 
 def minutes(dt):
@@ -72,9 +77,20 @@ def restrict(table, lo, hi):
     return [[-1000000000, base[1]]] + keep
 
 
-def convert(ns, name, start_local, vals, via_pattern, live_cache):
+def convert(ns, name, start_local, vals, via_pattern, live_cache, pre_zone=None):
     src = efx.hourly(ns, vals, start_local)
-    if via_pattern:
+    if via_pattern and pre_zone is not None:
+        # the series is first given while the country is (wrongly) in a zone of constant offset, converted once, and only then
+        # the country's zone is corrected: the SAME series object is converted a second time, in a zone that agrees with the first
+        # one at both ends of the series and differs from it in between
+        up = live_cache["up"]
+        cur = up.country
+        cur.timezone = ns.SourceObject(ns.pytz.timezone(pre_zone))
+        up.hourly_usage_journey_starts = src
+        _ = up.utc_hourly_usage_journey_starts
+        cur.timezone = ns.SourceObject(ns.pytz.timezone(name))
+        res = up.utc_hourly_usage_journey_starts
+    elif via_pattern:
         up = live_cache["up"]
         country = live_cache["country"]
         live_cache["n"] = live_cache.get("n", 0) + 1
@@ -118,26 +134,42 @@ def record(ns, rng, cases):
     live = efx.build(ns, m)
     cache = {"up": live["up1"], "country": live["c1"], "other": live["c2"]}
     events = []
-    for tid, (name, table, at_min) in enumerate(cases, start=1):
+    for tid, case in enumerate(cases, start=1):
+        name, table, at_min = case[:3]
+        double_until = case[3] if len(case) > 3 else None
         n = 8 if rng.random() < 0.8 else rng.choice([3, 30])
         # local wall clock around the transition, on the hour
         off_before = [r for r in table if r[0] < at_min][-1][1] if at_min is not None else table[0][1]
         centre = (at_min if at_min is not None else minutes(datetime(2025, 6, 1))) + off_before
         start_min = (centre // 60) * 60 - 60 * rng.choice([2, 3, n // 2])
+        pre_zone = None
+        if double_until is not None:
+            # a series that starts before one transition and ends after the next one, which puts the offset back
+            start_min = (centre // 60) * 60 - 60 * rng.choice([2, 3, 5])
+            n = (double_until + off_before - start_min) // 60 + rng.choice([3, 4, 6])
+            pre_zone = "Etc/GMT%+d" % (-off_before // 60) if off_before else "UTC"
         start_local = EPOCH + timedelta(minutes=start_min)
         vals = [rng.choice([1, 2, 3, 5, 8]) for _ in range(n)]
-        via = (tid % 5 == 0) and n == 8
+        via = ((tid % 5 == 0) and n == 8) or double_until is not None
         lo, hi = start_min - 2 * 1440, start_min + n * 60 + 2 * 1440
         if name in SUB_MINUTE and any(r[0] in SUB_MINUTE[name] for r in restrict(table, lo, hi)):
             SKIPPED.append(name)        # an offset with seconds (e.g. Africa/Monrovia -0:44:30 until 1972) is not on the lattice
             continue
         try:
-            t, v = convert(ns, name, start_local, vals, via, cache)
+            if double_until is not None:
+                # a system of its own, built with a series of the same length (a series can only be replaced by one as long)
+                m2 = copy.deepcopy(m)
+                m2["up1"] = efx.new_obj("UsagePattern", usage_journey="uj1", network="n1", country="c1", devices=["d1"],
+                                        starts=[1] * n)
+                live2 = efx.build(ns, m2)
+                t, v = convert(ns, name, start_local, vals, via, {"up": live2["up1"], "country": live2["c1"]}, pre_zone)
+            else:
+                t, v = convert(ns, name, start_local, vals, via, cache, pre_zone)
         except Exception as ex:   # noqa
             raise MachineryError(f"conversion raised for {name} at {start_local}: {ex!r}")
         lo, hi = start_min - 2 * 1440, start_min + n * 60 + 2 * 1440
         events.append({"tid": tid, "seq": 0, "ev": "Convert", "name": name, "via_usage_pattern": via,
-                       "zone": restrict(table, lo, hi), "local_t": [start_min + 60 * k for k in range(n)],
+                       "double_transition": double_until is not None, "zone": restrict(table, lo, hi), "local_t": [start_min + 60 * k for k in range(n)],
                        "local_v": vals, "utc_t": t, "utc_v": v})
     return events
 
@@ -228,6 +260,20 @@ def run(tier, out):
                 cases.append((name, table, None))
             for t in pick:
                 cases.append((name, table, t))
+        # zones in which two transitions a few days apart put the offset back to what it was (a one-week summer time in north-east
+        # Brazil in 2000, Argentina's provinces in 2004, ...): a series spanning both agrees at its two ends with a zone without any
+        doubles = []
+        for name in (DOUBLE_ZONES if tier == "quick" else allz):
+            table = zone_table(ns, name)
+            for i in range(1, len(table) - 1):
+                before, t1, o1, t2, after = table[i - 1][1], table[i][0], table[i][1], table[i + 1][0], table[i + 1][1]
+                if before == after and before != o1 and before % 60 == 0 and t2 - t1 <= (20 if tier == "quick" else 45) * 1440:
+                    doubles.append((name, table, t1, t2))
+        if tier == "quick":
+            doubles = rng.sample(doubles, min(6, len(doubles)))
+        if not doubles:
+            raise MachineryError("no zone with two close transitions found in pytz's tables")
+        cases += doubles
         events = record(ns, rng, cases)
         comb = combine_events(ns, rng, cases, 10 ** 6, 40 if tier == "quick" else 1500)
         events += comb
@@ -256,7 +302,8 @@ def run(tier, out):
         out.extra.update({"rule": "a case = one hourly series straddling one transition of one IANA zone, converted by the "
                                   "real code and judged admissible or not by TLC; distinct by (zone, first local hour)",
                           "zones": len(set(e["name"] for e in events)), "conversions_with_merged_hours": kinds["skipped"],
-                          "through_usage_pattern": sum(1 for e in events if e["via_usage_pattern"]),
+                          "through_usage_pattern": sum(1 for e in events if e.get("via_usage_pattern")),
+                          "series_spanning_two_transitions_after_a_zone_correction": sum(1 for e in events if e.get("double_transition")),
                           "two_zone_systems_combined": len(comb), "of_which_with_a_fall_back": sum(1 for e in comb if e["falls_back"]),
                           "cases_skipped_because_of_sub_minute_offsets_or_instants": sorted(set(SKIPPED))})
         out.assumptions += ["pytz's transition tables are the definition of the zones",
